@@ -59,6 +59,11 @@ type router struct {
 	closed        bool
 	closeOnce     sync.Once
 
+	// stopLock and stopping prevent submitting to actionChan after it is
+	// closed by Close.
+	stopLock sync.RWMutex
+	stopping bool
+
 	log   stdlog.StdLog
 	debug bool
 
@@ -177,8 +182,8 @@ func (r *router) AttachClient(client wamp.Peer, transportDetails wamp.Dict) erro
 	}
 	// Lookup or create realm to attach to.
 	var realm *realm
-	sync := make(chan error)
-	r.actionChan <- func() {
+	sync := make(chan error, 1)
+	ok = r.submit(func() {
 		if r.closed {
 			sendAbort(wamp.ErrSystemShutdown, nil)
 			sync <- errors.New("router is closing, not accepting new clients")
@@ -211,6 +216,10 @@ func (r *router) AttachClient(client wamp.Peer, transportDetails wamp.Dict) erro
 			r.log.Println("Auto-added realm:", hello.Realm)
 		}
 		sync <- nil
+	})
+	if !ok {
+		sendAbort(wamp.ErrSystemShutdown, nil)
+		return errors.New("router is closed, not accepting new clients")
 	}
 	err = <-sync
 	if err != nil {
@@ -303,6 +312,9 @@ func (r *router) Close() {
 			close(done)
 		}
 		<-done
+		r.stopLock.Lock()
+		r.stopping = true
+		r.stopLock.Unlock()
 		close(r.actionChan)
 		if r.stopMemStats != nil {
 			close(r.stopMemStats)
@@ -317,9 +329,15 @@ func (r *router) Close() {
 func (r *router) AddRealm(config *RealmConfig) error {
 	var err error
 	sync := make(chan struct{})
-	r.actionChan <- func() {
-		_, err = r.addRealm(config)
+	if !r.submit(func() {
+		if r.closed {
+			err = errors.New("router is closed")
+		} else {
+			_, err = r.addRealm(config)
+		}
 		close(sync)
+	}) {
+		return errors.New("router is closed")
 	}
 	<-sync
 	return err
@@ -343,7 +361,7 @@ func (r *router) RemoveRealm(name wamp.URI) {
 	var realm *realm
 	var ok bool
 	sync := make(chan struct{})
-	r.actionChan <- func() {
+	if !r.submit(func() {
 		if realm, ok = r.realms[name]; ok {
 			// if found, go ahead and remove the realm from the router to
 			// prevent new clients from joining it.
@@ -351,6 +369,9 @@ func (r *router) RemoveRealm(name wamp.URI) {
 			r.log.Printf("Removed realm: %s", name)
 		}
 		close(sync)
+	}) {
+		// The router is closed, and with it all of its realms.
+		return
 	}
 	// wait until the atomic func has completed.
 	<-sync
@@ -385,6 +406,18 @@ func (r *router) addRealm(config *RealmConfig) (*realm, error) {
 	r.realms[config.URI] = realm
 	r.log.Println("Added realm:", config.URI)
 	return realm, nil
+}
+
+// submit hands an action to the router's goroutine. It returns false, without
+// running the action, if the router was stopped by Close.
+func (r *router) submit(action func()) bool {
+	r.stopLock.RLock()
+	defer r.stopLock.RUnlock()
+	if r.stopping {
+		return false
+	}
+	r.actionChan <- action
+	return true
 }
 
 // Single goroutine used to safely access router data.
